@@ -62,10 +62,10 @@ TEXT = {
         "level_note": _COMMON_NOTE + " Bounded stand-in: c09_event feeds ~480 extreme-but-valid events (waveform lengths around the calibration delay, i16 extremes, full ring, sent/over-threshold masks that differ) through try_from_banks, avalanches and vertex. NOT decided by proof: the floating-point pipeline (deconvolution, clustering, fitting, vertexing) and the generic, HashMap-using body of try_from_banks itself; the call sites of the unwraps are not verified, only the callee-side invariants.",
     },
     "C10": {
-        "technique": "complete Kani proof of the two extracted calibration closures",
-        "design_ref": "DESIGN.md §4 C10",
-        "level_text": "Only the calibration expression is decided: for every i16 sample and baseline and gains {3.0, -0.5, 1.0} both closures of try_from_banks return (sample - baseline) * gain exactly.",
-        "level_note": _COMMON_NOTE + " Bounded stand-in: c10_table runs one representative per rejection clause of the statement (with its accepted neighbour, multi-chunk pad packets misnamed at each position) through the real try_from_banks and checks the TRG timestamp. NOT decided: slot placement on wires/pads, skip(delay). Gain is sampled (3 values), samples and baselines are exhaustive.",
+        "technique": "Verus contract on the anode-wire arm cut out of MainEvent::try_from_banks, checked against the proved contracts of the ADC decoder and the wire map; complete Kani proofs of the two calibration expressions; bounded native table of rejections",
+        "design_ref": "DESIGN.md §9.9",
+        "level_text": "For one anode-wire bank, every run number and every slot state: a payload the ADC decoder rejects is rejected and changes nothing; a packet without samples is ignored; a barrel-veto channel, a bank name that disagrees with the packet's (board, channel), a board or run the wire map does not know, an occupied slot, a missing baseline / gain / delay calibration each give an error and change nothing; otherwise the calibrated waveform (if any sample is left after the run's delay) is stored in exactly the slot TpcWirePosition::try_new assigns to the packet's (board, channel) and every other slot is unchanged. The calibration expression is proved (Kani, every sample and baseline, three gains) to be (sample - baseline) x gain for wires and pads.",
+        "level_note": _COMMON_NOTE + " The arm is a fragment (rules R11, `continue` -> `return Ok(())` inside the synthesised function, `?` desugared); callee contracts are copied from units adc and wiremap where they are proved (`contract_from`); the calibration tables are uninterpreted functions of (run, wire), the skip/map/collect chain an opaque function `calibrated` (its integer part is the Kani harness). Error payload types of the other arms are opaque placeholders. NOT decided by proof: the pad arm, the TRG arm and the grouping of chunks (HashMap) -- those clauses are covered by the bounded native table c10_table only; which error is reported when several apply is deliberately not part of the contract.",
     },
     "C13": {
         "technique": "Verus contract on the real contiguous_ranges (maximal cyclic runs, seam adjacency) + complete Kani proof of the induction-matrix entry",
